@@ -22,7 +22,9 @@ pub fn build_race_world() -> MResult<()> {
     root.build(&out(ROOT_IN))?;
     let outside = TreeSpec::default()
         .dir("attacker").dir("attacker/x").dir("attacker/x/c").dir("attacker/x/c/d").file("attacker/x/secret2").dir("attacker/x/b").dir("attacker/x/b/c").dir("attacker/x/b/c/d")
-        .file("attacker/x/f").dir("attacker/x/e").file("attacker/x/e/f")
+        .file("attacker/x/f").dir("attacker/x/e").file("attacker/x/e/f").link("attacker/x/lnk", "/etc/shadow").link("attacker/x/b/lnk", "/etc/shadow")
+        // never-inside look-alikes the attacker plants INSIDE a directory it has moved out of the root (plant-* mutations)
+        .dir("attacker/plant").dir("attacker/plant/b").dir("attacker/plant/b/c").dir("attacker/plant/b/c/d").link("attacker/plant/b/lnk", "/etc/shadow").dir("attacker/plant/c").dir("attacker/plant/c/d").dir("attacker/plant/d").link("attacker/plant/lnk", "/etc/shadow").file("attacker/plant/f")
         .link("attacker/l-root", "/").link("attacker/l-up2", "../..").link("attacker/l-secret", "/../secret")
         // every name the walked paths use also exists directly in the attacker's directory (and its parent), so that a walk
         // that climbs out of a moved directory *finds* something
@@ -46,7 +48,8 @@ pub fn build_race_world() -> MResult<()> {
 }
 
 pub fn lookup_paths(thorough: bool) -> Vec<&'static str> {
-    let mut v = vec!["a/b/c/d", "a/b/../b/c/../../b/c/d", "a/b/lnk/f", "abs/c/d", "up/up/a/b", "a/b/c/d/../../../../e/f", "a/b/lnk", "abs", "a/b/c/../lnk", "a/b/c/../../../abs"];
+    // the last three: a trailing slash makes the kernel follow the final component even under O_NOFOLLOW (one-component paths included)
+    let mut v = vec!["a/b/c/d", "a/b/../b/c/../../b/c/d", "a/b/lnk/f", "abs/c/d", "up/up/a/b", "a/b/c/d/../../../../e/f", "a/b/lnk", "abs", "a/b/c/../lnk", "a/b/c/../../../abs", "e/", "a/b/", "abs/"];
     if thorough { v.extend_from_slice(&["a/b/c/../../../../../../a", "a/b/c/d/nonexist", "e/../a/b/lnk/../a", "/abs/../b/c"]); }
     v
 }
@@ -107,6 +110,18 @@ pub fn mutations_for(path: &str, full: bool) -> Vec<Mutation> {
                 v.push(Mutation::xchg(&r(l), &at("l-up2")));
                 v.push(Mutation::xchg(&r(l), &r("evil-dir")));
             }
+        }
+    }
+    // the attacker replaces an entry INSIDE a directory it has moved out of the root by a never-inside look-alike: a walk that
+    // continues downwards from the moved directory then meets objects that never were in the root (what the final
+    // verification of a walk is for). Enabled only while the moved directory sits outside.
+    for (p, kids) in [("a", vec!["b"]), ("a/b", vec!["c", "lnk"]), ("a/b/c", vec!["d"]), ("e", vec!["f"])] {
+        if !prefixes.contains(&p) { continue; }
+        for k in kids {
+            if k == "lnk" && !path.contains("lnk") { continue; }
+            let mut m = Mutation::xchg(&at(&format!("moved/{}", k)), &at(&format!("plant/{}", k)));
+            m.name = format!("plant({} in moved {})", k, p);
+            v.push(m);
         }
     }
     if full { v.push(Mutation::rm(&r("a/b/c/d"))); v.push(Mutation::rm(&r("e/f"))); }
